@@ -7,10 +7,12 @@ copies of the sub-flow of values whose argument a linear scan (lo <= x < hi in e
 dimension; the independent cell finder of C06) puts into that cell, in arrival order.
 IterateBins / MapBins are compared with the same per-cell recomputation.
 """
+import bisect
 import copy
 import itertools
 import math
 import random
+from fractions import Fraction
 
 from rv import gen
 from rv.monitors import identity
@@ -166,6 +168,13 @@ def cases(tier, seed):
     # the argument variable is an ordinary Variable that is used again afterwards; values may
     # come from upstream Variable elements (their context holds a typed context.variable); a
     # user function inside the analysis may raise for one value
+    # (Decimal coordinates are not generated: Decimal and float do not mix in Python
+    # arithmetic, and the bin search divides by a float)
+    for kind in ("bigint", "fraction"):
+        yield {"exact": kind}
+    for names in (["x", "y"], ["x", "y", "x"], ["y", "t"], ["x"]):
+        for ed in ("int", "mixed"):
+            yield {"twovars": 1, "names": names, "edges": ed}
     for typed in (0, 1):
         for upstream in (0, 1):
             for raising in (None, "IndexError", "KeyError", "ValueError"):
@@ -223,6 +232,10 @@ def run_case(r, obs):
         return _bad(r, obs, lena)
     if "special" in r:
         return _special(r, obs, lena)
+    if "exact" in r:
+        return _exact_args(r, obs, lena)
+    if "twovars" in r:
+        return _two_variables(r, obs, lena)
     dim, edges = r["dim"], r["edges"]
     E = mon.unify_edges(edges)
     getter = (ARG1 if dim == 1 else ARG2)[r["arg"]]
@@ -635,6 +648,92 @@ def _special(r, obs, lena):
               "fresh equal Variable %r" % (a[0][1], f[0][1]))
 
 
+def _two_variables(r, obs, lena):
+    """One IterateBins run over histograms with the same mesh but different argument variables
+    (Split([SplitIntoBins(seq, x, edges), SplitIntoBins(seq, y, edges)]) followed by
+    IterateBins): every cell is described with the variable of ITS histogram - what a run over
+    that histogram alone gives."""
+    import lena.math
+    import lena.variables
+    obs.nontrivial = True
+    edges = [0, 1.0, 2, 4] if r["edges"] == "mixed" else [0, 1, 2, 4]
+    names = r["names"]
+    hists = []
+    for nm in names:
+        inner = lena.structures.Histogram([0, 5, 10])
+        sib = lena.structures.SplitIntoBins(
+            inner, lena.variables.Variable(nm, _ident, latex_name=nm.upper()),
+            copy.deepcopy(edges) if nm != "t" else [0.0, 1, 2.0, 4])
+        for v in (0.5, 1.5, 3.0, 1.2):
+            sib.fill(v)
+        hists.extend(list(sib.compute()))
+    alone = []
+    for h in hists:
+        alone.extend(copy.deepcopy(list(lena.structures.IterateBins().run(
+            iter([copy.deepcopy(h)])))))
+    together = list(lena.structures.IterateBins().run(iter(copy.deepcopy(hists))))
+    obs.count("iterate_bins_runs_over_several_histograms")
+    ok = len(together) == len(alone)
+    diffs = []
+    if ok:
+        for a, b in zip(alone, together):
+            ca, cb = a[1].get("bin"), b[1].get("bin")
+            if ca != cb or a[1].get("bins") != b[1].get("bins"):
+                diffs.append((ca, cb))
+    obs.check(ok and not diffs, "iterate-bins-cell-described-with-another-histograms-variable",
+              "IterateBins over histograms of the variables %r with one mesh: %d values (alone: "
+              "%d); first differing context.bin: alone %r, in the common run %r"
+              % (names, len(together), len(alone), diffs[0][0] if diffs else None,
+                 diffs[0][1] if diffs else None))
+
+
+def _exact_args(r, obs, lena):
+    """Arguments that are exact numbers floats cannot hold (integers above 2**53, Fractions /
+    Decimals beside an edge): each value goes to the cell whose half-open interval holds it
+    by exact comparison."""
+    import decimal
+    import lena.math
+    import lena.variables
+    obs.nontrivial = True
+    kind = r["exact"]
+    if kind == "bigint":
+        t0 = 1700000000123456789
+        edges = [t0 + 100 * i for i in range(4)]
+        vals = [t0 - 1, t0, t0 + 1, t0 + 99, t0 + 100, t0 + 101, t0 + 199, t0 + 299, t0 + 300,
+                t0 + 301, t0 - 200]
+    elif kind == "fraction":
+        edges = [0.0, 0.1, 0.2, 0.3]
+        vals = [Fraction(1, 10), Fraction(1, 5), Fraction(3, 10), Fraction(0), Fraction(-1, 10 ** 30),
+                Fraction(1, 10) + Fraction(1, 10 ** 25), Fraction(3, 10) - Fraction(1, 10 ** 25)]
+    else:
+        # (Decimal and float do not mix in Python arithmetic: Decimal edges)
+        edges = [decimal.Decimal(x) for x in ("0.0", "0.1", "0.2", "0.3")]
+        vals = [decimal.Decimal("0.1"), decimal.Decimal("0.2"), decimal.Decimal("0.3"),
+                decimal.Decimal("0.29999999999999999999"), decimal.Decimal("0"),
+                decimal.Decimal("0.1000000000000000055511151231257827021181583404541015625")]
+    sib = lena.structures.SplitIntoBins(lena.flow.StoreFilled(yield_as_a_group=False),
+                                        lena.variables.Variable("t", _ident), list(edges))
+    for v in vals:
+        sib.fill(v)
+    res = list(sib.compute())
+    exp = [[] for _ in range(len(edges) - 1)]
+    for v in vals:
+        i = bisect.bisect_right(edges, v) - 1      # exact comparisons of int/Fraction/Decimal
+        if 0 <= i < len(exp):
+            exp[i].append(v)
+    n_results = min(len(e) for e in exp)
+    got = [[] for _ in exp]
+    for h, _c in res:
+        for i, b in enumerate(h.bins):
+            got[i].append(gen.data_of(b))
+    obs.count("exact_argument_runs")
+    want = [e[:n_results] for e in exp]
+    obs.check(got == want, "cell-content-differs:argument-not-representable-as-float",
+              "SplitIntoBins over edges %r filled with %r: the cells hold %r, exact comparison "
+              "with the edges puts %r into them (first %d results per cell are yielded)"
+              % (edges, vals, got, exp, n_results))
+
+
 def _bad(r, obs, lena):
     import lena.math
     import lena.variables
@@ -662,3 +761,6 @@ RULE += (' Every SplitIntoBins is computed a second time with nothing filled in 
          'contexts (context.variable in particular) are those of the first compute.')
 RULE += (' MapBins is also given bare fill/compute elements (FillCompute(Count), StoreFilled), which '
          'keep state between the cells unless every cell gets its own copy.')
+RULE += (' Added: arguments that floats cannot hold exactly (integers above 2**53, Fractions and '
+         'Decimals beside an edge); one IterateBins run over histograms with one mesh and '
+         'different argument variables.')
